@@ -13,7 +13,7 @@ EXPLANATION = ("The four process models are executed with the real Composition v
                "of the admissible region the call ends in one of the raising leaves.  sat answers are replayed on the real code with coarse "
                "discretisations (one step removing 10%..1000% of the feed).")
 OUTSIDE = ("non-finite floats (inf/nan) are outside the real-arithmetic model: the repaired guards are written as `not x > 0` so that nan is "
-           "rejected too, which is argued, not decided; step counts above the bound; Permeance clamp assumed (permeances are not part of the "
+           "rejected too, which is argued, not decided (plus labelled concrete points: overflowing temperature programmes); step counts above the bound; Permeance clamp assumed (permeances are not part of the "
            "admissibility statement)")
 R_ = "vf.props.C18:concrete"
 N_TIER = {"quick": (2,), "thorough": (2, 3)}
@@ -81,6 +81,27 @@ def concrete(inp):
     return {"ok": True, "detail": "all %d coarse runs raised or stayed admissible" % len(cands)}
 
 
+def concrete_overflow(inp):
+    """a temperature programme whose value overflows the floats must end in an error, not in a trajectory with T = inf and nan heats"""
+    import warnings
+    kind, mode = inp["kind"], inp.get("mode")
+    f = realrun.proc_fallback(mode, None)[0]
+    bad = []
+    for ptype, coefs in (("exponential", (f["T0"], 0.0, -400.0, 400.0)), ("polynomial", (f["T0"], 0.0, 0.0, 1e306, 1e306)), ("exponential", (f["T0"], 800.0))):
+        i = dict(f, kind=kind, mode=mode, basis="weight", program=ptype, N=3, dt=1.0, A=0.01, m0=10.0, n_curves=2, initial_permeances=False)
+        i.update({"tc%d" % j: v for j, v in enumerate(coefs)})
+        try:
+            with warnings.catch_warnings():
+                warnings.simplefilter("ignore")
+                m, _, _ = realrun.process(i)
+        except (ValueError, ZeroDivisionError, OverflowError, FloatingPointError):
+            continue
+        b = _check_model(m, i)
+        if b:
+            bad.append("%s with the %s programme %r returned a trajectory with %s" % (kind, ptype, coefs, "; ".join(b[:3])))
+    return {"ok": not bad, "detail": "; ".join(bad[:2]), "inputs": inp}
+
+
 def admissible(job, kind, mode, tier):
     Ns = N_TIER[tier]
     job.bound(process_steps_N=list(Ns))
@@ -118,6 +139,9 @@ def admissible(job, kind, mode, tier):
                 job.vacuity["checked"] += 1
                 if raised == 0:
                     job.vacuity["failed"].append(tag + ": no raising path (validator not reached?)")
+    if not iso:
+        # labelled concrete points: float overflow (inf / nan) has no counterpart in real arithmetic
+        job.refute_concretely("C18/%s/%s/overflowing_programme_raises" % (proc.SHORT[kind], mode), "vf.props.C18:concrete_overflow", {"kind": kind, "mode": mode})
 
 
 JOB_TIMEOUT = {"quick": 500, "thorough": 3000}
